@@ -20,6 +20,7 @@ def failed_protocols(ctx):
     """protocol names whose generated obligation failed on this run"""
     out = set()
     for name, ok, detail in ctx.obligations:
-        if not ok and 'IRGen.Obl.wf_' in name:
-            out.add(name.split('wf_')[1].rsplit('_', 1)[0] if name.split('wf_')[1].rsplit('_', 1)[-1].isdigit() else name.split('wf_')[1])
+        if not ok and ('IRGen.Obl.wf_' in name or 'IRGen.Obl.wftol_' in name):
+            tail = name.split('_', 1)[1] if False else name.split('.')[-1].split('_', 1)[1]
+            out.add(tail.rsplit('_', 1)[0] if tail.rsplit('_', 1)[-1].isdigit() else tail)
     return out
